@@ -316,6 +316,21 @@ class RelayMode(vlib.Mode):
                 nj = st.get("joined", 0)
                 if nj:
                     case.append(f"close n{rng.randrange(nj)}"); case.append("sync")
+        # The relay's expiry timers run on REAL time while the cases run on a virtual clock: a connection admitted within a few (virtual)
+        # seconds of its token's expiry would really be closed a moment later — or, at exp - now == 0, at once, racing with the very
+        # observation of the admission. Such admissions are the business of the real-time expiry mode (C06); here every websocket
+        # attempt made while SOME earlier session token is within 5 s of its expiry presents a never-issued code instead.
+        exps, cur = [], 0
+        for i, l in enumerate(case):
+            f = l.split(" ")
+            if f[0] == "now": cur = int(f[1])
+            elif f[0] == "session":
+                m = re.search(r"exp=[if](-?\d+)", f[1])
+                if m: exps.append(int(m.group(1)))
+            elif f[0] == "ws" and len(f) >= 3 and f[2].startswith("c") and any(0 <= e - cur <= 5 for e in exps):
+                f[2] = "x"
+                case[i] = " ".join(f)
+
         def short_lived():
             # the relay's expiry timers run on REAL time: a token expiring within a few (virtual) seconds of its admission would really expire
             # during a real-time wait — the model, which knows only the virtual clock, would rightly disagree
@@ -324,7 +339,7 @@ class RelayMode(vlib.Mode):
                 f = l.split(" ")
                 if f[0] == "now": nows.append(int(f[1]))
                 elif f[0] == "session":
-                    m = re.search(r"exp=i(-?\d+)", f[1])
+                    m = re.search(r"exp=[if](-?\d+)", f[1])
                     if m: exps.append(int(m.group(1)))
             return any(0 <= e - n <= 5 for e in exps for n in nows)
         if any(l.startswith("send ") for l in case) and any(hx("stats") in l for l in case if l.startswith("session ")) and rng.random() < self.settle_prob \
